@@ -252,6 +252,7 @@ func (om *offsetManager) flushToBroker() {
 	if req == nil {
 		return
 	}
+	verifHook("offs.flush.built")
 
 	broker, err := om.coordinator()
 	if err != nil {
@@ -267,6 +268,7 @@ func (om *offsetManager) flushToBroker() {
 		return
 	}
 
+	verifHook("offs.flush.response")
 	om.handleResponse(broker, req, resp)
 }
 
